@@ -213,25 +213,57 @@ def opGet (st : DState) (s : Nat) (x : Bytes) : Option (Out (Option Nat)) :=
   | .reader r _ => some (r.get st.env x)
   | _ => none
 
-/-- Resolution. `mode`: 0 = resolve / index (panics when unknown), 1 = try_resolve, 2 = resolve_unchecked. -/
+/-- Resolution through the model's own entry points. `mode`: 0 = resolve / index, 1 = try_resolve,
+2 = resolve_unchecked. The result is `some bytes` / `none`. -/
+def resolveObj (env : Env) (o : Obj) (k : Nat) (mode : Nat) : Out (Option Bytes) :=
+  match o, mode with
+  | .rodeo r, 0 => (r.resolve env k).map some
+  | .rodeo r, 1 => r.tryResolve env k
+  | .rodeo r, _ => (r.resolveUnchecked env k).map some
+  | .reader r _, 0 => (r.resolve env k).map some
+  | .reader r _, 1 => r.tryResolve env k
+  | .reader r _, _ => (r.resolveUnchecked env k).map some
+  | .resolver r _, 0 => (r.resolve env k).map some
+  | .resolver r _, 1 => r.tryResolve env k
+  | .resolver r _, _ => (r.resolveUnchecked env k).map some
+  | .threaded t, 1 => t.tryResolve env k
+  | .threaded t, _ => (t.resolve env k).map some
+  | .gone, _ => .fault .unreachable
+
 def opResolve (st : DState) (s : Nat) (k : Nat) (mode : Nat) : String :=
   let o := getSlot st s
+  -- the unchecked path is only ever exercised on keys that exist
+  if mode == 2 && !(o.refAt k).isSome then "skipped" else
+  match resolveObj st.env o k mode with
+  | .ok (some b) =>
+    let prov := match o.refAt k with
+      | some ref => showProv o ref
+      | none => "?"
+    if mode == 1 then s!"some {hex b} {prov}" else s!"str {hex b} {prov}"
+  | .ok none => "none"
+  | .err e => showErr e
+  | .panic => "panic"
+  | .fault _ => "fault"
+
+/-- All `(key, bytes)` pairs through the model's `iter` (vector containers) resp. the sorted
+key->string map (concurrent interner, "up to order"). -/
+def iterObj (env : Env) (o : Obj) : Out (List (Nat × Bytes)) :=
   match o with
-  | .gone => "bad-op"
-  | _ =>
-    match o.refAt k with
-    | some ref =>
-      match showRef st.env o ref with
-      | some str => if mode == 1 then s!"some {str}" else s!"str {str}"
-      | none => "fault"
-    | none => if mode == 0 then "panic" else if mode == 1 then "none" else "skipped"
+  | .rodeo r => r.iter env
+  | .reader r _ => r.iter env
+  | .resolver r _ => r.iter env
+  | .threaded t =>
+    match t.sortedStrs.mapM (fun (k, ref) => (t.content env ref).map fun b => (k, b)) with
+    | some l => .ok l
+    | none => .fault .oobIndex
+  | .gone => .fault .unreachable
 
 def showPairs (env : Env) (o : Obj) (withKeys : Bool) : String :=
-  let items := o.pairs.map fun (k, ref) =>
-    match contentIn env o ref with
-    | some b => if withKeys then s!"{k}:{hex b}" else hex b
-    | none => "fault"
-  showList items
+  match iterObj env o with
+  | .ok l => showList (l.map fun (k, b) => if withKeys then s!"{k}:{hex b}" else hex b)
+  | .err e => showErr e
+  | .panic => "panic"
+  | .fault _ => "fault"
 
 def parseScript (s : String) : List IterStep :=
   (s.splitOn ",").filterMap fun t =>
@@ -253,11 +285,11 @@ def runScript (items : List String) : List IterStep → List String
 
 def opIterScript (st : DState) (s : Nat) (kind : String) (script : String) : String :=
   let o := getSlot st s
-  let items := o.pairs.map fun (k, ref) =>
-    match contentIn st.env o ref with
-    | some b => if kind == "strings" then hex b else s!"{k}:{hex b}"
-    | none => "fault"
-  joinWith ";" (runScript items (parseScript script))
+  match iterObj st.env o with
+  | .ok l =>
+    let items := l.map fun (k, b) => if kind == "strings" then hex b else s!"{k}:{hex b}"
+    joinWith ";" (runScript items (parseScript script))
+  | _ => "fault"
 
 def contentsOfObj (env : Env) (o : Obj) : Option (List Bytes) :=
   o.pairs.mapM fun (_, ref) => contentIn env o ref
